@@ -167,6 +167,8 @@ impl RedbStore {
             let _guard = guard;
 
             {
+                #[cfg(eigerco_lumina_verif)]
+                let _verif_tx_scope = crate::verif::sync::tx_scope();
                 let mut tx = inner.db.begin_read()?;
                 f(&mut tx)
             }
@@ -189,6 +191,8 @@ impl RedbStore {
             let _guard = guard;
 
             {
+                #[cfg(eigerco_lumina_verif)]
+                let _verif_tx_scope = crate::verif::sync::tx_scope();
                 let mut tx = inner.db.begin_write()?;
                 let res = f(&mut tx);
 
